@@ -133,6 +133,7 @@ def run_c02(res, tier):
     passes.run_analysis_eval(res, ast)
     import iolim
     iolim.run_io_map(res, ast)       # ',' stores the next byte or 0 at end of input: part of C02's statement
+    iolim.run_thread_seq(res, ast)
     if tier == "thorough":
         import mirrules
         from mir import load_facts
@@ -175,6 +176,7 @@ def run_c10(res, tier):
     moves.run_moves(res, ast, rules=("UNSAFE-TWIN",))
     import bcops
     bcops.run_bc_fixed(res, ast)      # emit(.., safe) picks the unchecked op variants exactly when safe is false
+    iolim.run_thread_seq(res, ast)    # ... and the stream of ops is the same in both modes
     jit.run_jit_rules(res, ast, ["PROBE-SEQ"])
     res.rule("SAFE-MAP", "execute / execute_limited / execute_unsafe select (limited, safe) = (false,true) / (true,true) / (false,false); "
              "interpreters without unchecked code do not override execute_unsafe", floor=8, what="entry points")
